@@ -540,4 +540,103 @@ theorem coverage_good {α : Type} [Num α] (cfg : Cfg) (m : BMOC) :
      good_of_wellFormed depth (ell_depth_le h) m (elliptical_cone_coverage_wf cfg depth dd lon lat a b pa m h),
    fun depth vs ex h => good_of_wellFormed depth (polygon_depth_le h) m (polygon_coverage_wf cfg depth vs ex m h)⟩
 
+/-! ### closure: every BMOC reachable from coverage queries through `not`, `and`, `or`, `xor` is `Good` -/
+
+theorem good_cells_inRange {A : BMOC} (g : Good A) : ∀ c ∈ A.cells, c.depth ≤ A.dmax ∧ InR c := by
+  intro c hc
+  obtain ⟨r, hr, rfl⟩ := List.mem_map.1 hc
+  obtain ⟨_, h2, h3⟩ := raw_of_decode g.1 (g.2.1 r hr) rfl
+  exact ⟨h2, h3⟩
+
+theorem not_good (A : BMOC) (g : Good A) : Good (BMOC.not A) := by
+  have hr : ∀ c ∈ cellsOf A.dmax A.entries, InR c := fun c hc => (good_cells_inRange g c hc).2
+  obtain ⟨_, w1, r1⟩ := notCells_spec A.dmax g.1 _ g.2.2 hr
+  have hent : (BMOC.not A).entries = (notCells (cellsOf A.dmax A.entries)).map (encode A.dmax) := rfl
+  have hco := cellsOf_map_encode A.dmax g.1 _ w1.depth_le r1
+  refine ⟨g.1, ?_, ?_⟩
+  · intro r hr'
+    rw [hent] at hr'
+    obtain ⟨c, hc, rfl⟩ := List.mem_map.1 hr'
+    exact ⟨c, w1.depth_le c hc, r1 c hc, rfl⟩
+  · show WF A.dmax (cellsOf A.dmax (BMOC.not A).entries)
+    rw [hent, hco]
+    exact w1
+
+theorem and_good (A B : BMOC) (gA : Good A) (gB : Good B) : Good (BMOC.and A B) := by
+  have hD : max A.dmax B.dmax ≤ 29 := Nat.max_le.2 ⟨gA.1, gB.1⟩
+  have wA : WF (max A.dmax B.dmax) A.cells := wf_mono_depth (Nat.le_max_left _ _) gA.2.2
+  have wB : WF (max A.dmax B.dmax) B.cells := wf_mono_depth (Nat.le_max_right _ _) gB.2.2
+  obtain ⟨w, ins⟩ := and_wf_inside (max A.dmax B.dmax) A.cells B.cells wA wB
+  have hr : ∀ c ∈ andCells A.cells B.cells, InRange c := by
+    intro c hc
+    obtain ⟨c', hc', _, h2⟩ := (ins c hc).1
+    obtain ⟨hd', hr'⟩ := good_cells_inRange gA c' hc'
+    have hd'' : c'.depth ≤ max A.dmax B.dmax := Nat.le_trans hd' (Nat.le_max_left _ _)
+    apply inR_of_hi (max A.dmax B.dmax) c (w.depth_le c hc)
+    refine Nat.le_trans h2 ?_
+    unfold hi
+    have e : 4 ^ (max A.dmax B.dmax) = 4 ^ c'.depth * 4 ^ (max A.dmax B.dmax - c'.depth) := by
+      rw [← Nat.pow_add]; congr 1; omega
+    rw [e, ← Nat.mul_assoc]
+    exact Nat.mul_le_mul_right _ hr'
+  have hent : (BMOC.and A B).entries = (andCells A.cells B.cells).map (encode (max A.dmax B.dmax)) := rfl
+  refine ⟨hD, ?_, ?_⟩
+  · intro r hr'
+    rw [hent] at hr'
+    obtain ⟨c, hc, rfl⟩ := List.mem_map.1 hr'
+    exact ⟨c, w.depth_le c hc, hr c hc, rfl⟩
+  · show WF (max A.dmax B.dmax) (cellsOf (max A.dmax B.dmax) (BMOC.and A B).entries)
+    rw [hent, cellsOf_map_encode _ hD _ w.depth_le hr]
+    exact w
+
+theorem or_good (A B : BMOC) (gA : Good A) (gB : Good B) : ∃ R, BMOC.or A B = some R ∧ Good R := by
+  obtain ⟨R, h1, h2, h3, h4, _, _⟩ := bmoc_or_general A B gA.1 gB.1 ⟨gA.2.1, gA.2.2⟩ ⟨gB.2.1, gB.2.2⟩
+  refine ⟨R, h1, ?_, ?_, ?_⟩
+  · rw [h2]; have := gA.1; have := gB.1; omega
+  · rw [h2]; exact h3
+  · rw [h2]; exact h4
+
+theorem xor_good (A B : BMOC) (gA : Good A) (gB : Good B) : ∃ R, BMOC.xor A B = some R ∧ Good R := by
+  obtain ⟨R, h1, h2, h3, _, h5, _, _⟩ := bmoc_xor_valid A B gA.1 gB.1 gA.2.1 gB.2.1 gA.2.2 gB.2.2
+  refine ⟨R, h1, ?_, h3, ?_⟩
+  · rw [h2]; have := gA.1; have := gB.1; omega
+  · rw [h2]; exact h5
+
+/-- the BMOCs a user can obtain from the coverage queries and the four logical operators (numeric instance `α`) -/
+inductive Reach (α : Type) [Num α] (cfg : Cfg) : BMOC → Prop
+  | cone (depth : Nat) (lon lat r : α) (m : BMOC) : coneCoverageApprox cfg depth lon lat r = some m → Reach α cfg m
+  | coneCustom (depth deltaDepth : Nat) (lon lat r : α) (m : BMOC) :
+      coneCoverageApproxCustom cfg depth deltaDepth lon lat r = some m → Reach α cfg m
+  | ell (depth deltaDepth : Nat) (lon lat a b pa : α) (m : BMOC) :
+      Sph.ellipticalConeCoverageCustom cfg depth deltaDepth lon lat a b pa = some m → Reach α cfg m
+  | poly (depth : Nat) (vertices : List (α × α)) (exact : Bool) (m : BMOC) :
+      Sph.polygonCoverage cfg depth vertices exact = some m → Reach α cfg m
+  | not (a : BMOC) : Reach α cfg a → Reach α cfg (BMOC.not a)
+  | and (a b : BMOC) : Reach α cfg a → Reach α cfg b → Reach α cfg (BMOC.and a b)
+  | or (a b m : BMOC) : Reach α cfg a → Reach α cfg b → BMOC.or a b = some m → Reach α cfg m
+  | xor (a b m : BMOC) : Reach α cfg a → Reach α cfg b → BMOC.xor a b = some m → Reach α cfg m
+
+/-- **every BMOC reachable from the coverage queries through any history of `not`/`and`/`or`/`xor` is well formed**,
+    and `or`/`xor` never panic on such operands -/
+theorem reach_good {α : Type} [Num α] (cfg : Cfg) (m : BMOC) (h : Reach α cfg m) : Good m := by
+  induction h with
+  | cone depth lon lat r m h => exact (coverage_good cfg m).1 depth lon lat r h
+  | coneCustom depth dd lon lat r m h => exact (coverage_good cfg m).2.1 depth dd lon lat r h
+  | ell depth dd lon lat a b pa m h => exact (coverage_good cfg m).2.2.1 depth dd lon lat a b pa h
+  | poly depth vs ex m h => exact (coverage_good cfg m).2.2.2 depth vs ex h
+  | not a _ ih => exact not_good a ih
+  | and a b _ _ iha ihb => exact and_good a b iha ihb
+  | or a b m _ _ hm iha ihb =>
+    obtain ⟨R, h1, h2⟩ := or_good a b iha ihb
+    rw [hm] at h1; cases h1; exact h2
+  | xor a b m _ _ hm iha ihb =>
+    obtain ⟨R, h1, h2⟩ := xor_good a b iha ihb
+    rw [hm] at h1; cases h1; exact h2
+
+theorem reach_or_xor_defined {α : Type} [Num α] (cfg : Cfg) (a b : BMOC) (ha : Reach α cfg a) (hb : Reach α cfg b) :
+    (∃ m, BMOC.or a b = some m) ∧ ∃ m, BMOC.xor a b = some m := by
+  obtain ⟨R, h1, _⟩ := or_good a b (reach_good cfg a ha) (reach_good cfg b hb)
+  obtain ⟨R', h1', _⟩ := xor_good a b (reach_good cfg a ha) (reach_good cfg b hb)
+  exact ⟨⟨R, h1⟩, ⟨R', h1'⟩⟩
+
 end Hpx.CoverAll
